@@ -26,6 +26,11 @@ RULES = {
              "rearrange, Deconvolution::backward, Maxpool::backward",
     "R01.9": "gradient scale factors: the `loops` / `scale` fields that every backward pass multiplies into delta are written only by "
              "Network::loopback (MIR field writes) and start at 1.0 in every constructor",
+    "R01.3": "kernel transformations behind the convolution input gradient: Convolution::rotate reverses every row and the row order of each "
+             "channel and nothing else (E6 effect summary: `reverse` at nesting depths 1 and 2 of the kernel parameter only); "
+             "Convolution::rearrange copies kernels[f][c][h][w] to out[c][f][h][w] over the full ranges; backward uses both",
+    "R01.11": "the element-wise activation derivatives used for delta = f'(pre) * upstream obey their definitions in every rank arm and are "
+              "the derivatives of the forward functions (R07.1/R07.2/R07.3 re-run under this property)",
     "R01.10": "the helpers that reshape gradients between flat and CxHxW form (get_triple, flatten, get_flat) are row-major (R14.2 re-run)",
     "R01.8": "spatial backward prologue: derivative = activation.backward(output) and delta = hadamard3d(gradient, derivative, "
              "scale(loops)), with gradient/derivative reshaped by get_triple(self.outputs) and input by get_triple(self.inputs)",
@@ -155,6 +160,12 @@ def r2(ctx):
     for s in pads:
         if pat_binds(s["pat"])[0][1] == a0:
             pad_b = s
+    if pad_b is None:
+        # the padded input may be passed directly: convolve_gradients(&pad3d(&input, (ph, pw)), ..)
+        from ..hir import resolve, let_table
+        a_res = resolve(call["args"][0], let_table(bf["body"]))
+        if a_res is not None and a_res.get("k") == "call" and a_res.get("callee") == "tensor::pad3d":
+            pad_b = {"init": a_res, "line": a_res.get("line")}
     fpads = [s for s in walk(ff["body"]) if s.get("k") in ("assign", "let") and (s.get("init") or s.get("r")) is not None
              and strip(s.get("init") or s.get("r")).get("k") == "call" and strip(s.get("init") or s.get("r"))["callee"] == "tensor::pad3d"]
     if pad_b is None or len(fpads) != 1:
@@ -177,7 +188,7 @@ def r2(ctx):
               "backward pads the input to the forward extent %s" % fvs,
               "Convolution::backward pads the input to (%s) before correlating with delta, the forward pass pads to (%s); the two agree only "
               "for stride = 1" % (", ".join(bvs), ", ".join(fvs)))
-    ctx.check("R01.2", "conv-kernel-gradient:operands", [e4.local_hid(x) is not None for x in call["args"][:2]] == [True, True] and
+    ctx.check("R01.2", "conv-kernel-gradient:operands", e4.local_hid(call["args"][1]) is not None and
               pretty(strip(call["args"][1])) == "delta", "kernel-gradient-operands:" + short(pretty(call), 80), c.loc(bf, call),
               "convolve_gradients(padded input, delta, (kh, kw))")
 
@@ -430,7 +441,112 @@ def r10(ctx):
               "flatten / get_flat / get_triple are row-major (%d facts)" % len(sub.obligations))
 
 
+def r3_kernel_helpers(ctx):
+    """the two kernel transformations the convolution input gradient is built from (E6 effect summary / index maps):
+    rotate reverses every row and the row order of every channel and nothing else (180 degree rotation per channel, channel
+    order kept); rearrange copies kernels[f][c][h][w] to out[c][f][h][w] over the full index ranges."""
+    from .. import e6
+    c = ctx.crate
+    fn = ctx.fn("convolution::Convolution::rotate")
+    E = e6.Exec(c, fn)
+    paths = [p for p in E.run_fn() if p.exit is None or p.exit[0] == "return"]
+    kparam = ("p", pat_binds(fn["params"][1])[0][0])
+    ok = len(paths) == 1
+    why = ""
+    if ok:
+        p = paths[0]
+        val = p.val if p.exit is None else p.exit[1]
+        # collect every mutation with its nesting: (callee name, receiver term)
+        muts = []
+
+        def collect(effs):
+            for e in effs:
+                if e[0] == "loop":
+                    for (pc, eff, ex, v) in e[3]:
+                        collect(eff)
+                elif e[0] in ("mut", "set", "push", "mutcall"):
+                    muts.append(e)
+        collect(p.eff)
+        revs = [e for e in muts if e[0] == "mut" and e[1].rsplit("::", 1)[-1] == "reverse"]
+        others = [e for e in muts if e not in revs]
+
+        def depth(t):
+            d = 0
+            while isinstance(t, tuple) and t and t[0] == "elem":
+                d += 1
+                t = t[1]
+                a = e6.is_call(t, "for_each") or e6.is_call(t, "map") or e6.is_call(t, "enumerate")
+                t = a[0] if a else t
+            return d, t
+        ds = sorted(depth(e[4])[0] for e in revs)
+        roots = {repr(depth(e[4])[1]) for e in revs}
+        ok = ds == [1, 2] and roots == {repr(kparam)} and not others and e6.root_name(val) in (None, kparam[1]) and (val == kparam or e6.root_name(val) == kparam[1])
+        why = "reverse applied at nesting depths %s of %s; other mutations %d; returns %s" % (ds, sorted(roots), len(others), e6.show(val, 2))
+    ctx.check("R01.3", "rotate:rows-and-row-order-per-channel", ok, "rotate-form:" + short(why, 100), c.loc(fn),
+              "for every channel: every row reversed, then the rows reversed; channels keep their order",
+              "Convolution::rotate does not (only) rotate each channel by 180 degrees: %s. The input gradient of a convolution is the full "
+              "correlation of delta with the per-channel rotated kernels; reversing anything else (e.g. the channel order) routes gradient "
+              "to the wrong input channel" % why)
+    # rearrange
+    fn2 = ctx.fn("convolution::Convolution::rearrange")
+    kp = pat_binds(fn2["params"][1])[0]
+    asg = [x for x in walk(fn2["body"]) if x.get("k") == "assign"]
+    ok2 = False
+    got = "?"
+    if len(asg) == 1:
+        # loop variables by the extent they range over
+        role = {}
+        for lp in [x for x in walk(fn2["body"]) if x.get("k") == "for"]:
+            it = strip(lp["iter"])
+            if it.get("k") == "struct" and it["path"] == "std::ops::Range":
+                fs = dict((a, b) for a, b in it["fs"])
+                from ..hir import let_table, cpretty
+                end = cpretty(fs["end"], let_table(fn2["body"]))
+                nm = kp[0]
+                ext = {"%s.len()" % nm: "F", "%s[0].len()" % nm: "C", "%s[0][0].len()" % nm: "H", "%s[0][0][0].len()" % nm: "W"}.get(end)
+                if ext and e4.lit_value(fs["start"]) == "0" and pat_binds(lp["pat"]):
+                    role[pat_binds(lp["pat"])[0][1]] = ext
+
+        def idx_roles(n):
+            out = []
+            n = strip(n)
+            while n is not None and n.get("k") == "index":
+                out.append(role.get(e4.local_hid(n["i"]), "?"))
+                n = strip(n["b"])
+            return list(reversed(out)), n
+        lr, lb = idx_roles(asg[0]["l"])
+        rr, rb = idx_roles(asg[0]["r"])
+        got = "%s <- %s" % ("".join(lr), "".join(rr))
+        ok2 = lr == ["C", "F", "H", "W"] and rr == ["F", "C", "H", "W"] and e4.local_hid(rb) == kp[1] and sorted(role.values()) == ["C", "F", "H", "W"]
+    ctx.check("R01.3", "rearrange:swaps-filter-and-channel-axes", ok2, "rearrange-form:" + got, c.loc(fn2), "out[c][f][h][w] = kernels[f][c][h][w] over all f, c, h, w")
+    # both are used (once each) by backward
+    bf = ctx.fn("convolution::Convolution::backward")
+    used = sorted(cal.rsplit("::", 1)[-1] for _, cal in calls(bf["body"]) if cal in ("convolution::Convolution::rotate", "convolution::Convolution::rearrange"))
+    ctx.check("R01.3", "input-gradient-uses-rotated-rearranged-kernels", used == ["rearrange", "rotate"], "kernel-helpers-used:" + ",".join(used), c.loc(bf), "backward rotates and rearranges the kernels")
+
+
+def r11_activation_derivatives(ctx):
+    """delta = f'(pre) * upstream: the element-wise derivative functions obey their definitions in every rank arm (C07's rules re-run)"""
+    from . import c07
+    sub = type(ctx)(ctx.prop, ctx.facts)
+    for kind in ("ReLU", "LeakyReLU", "Sigmoid", "Tanh"):
+        res = {}
+        for d in ("forward", "backward"):
+            r = sub.guard("R07.1", "%s::%s" % (kind, d), c07.elementwise, sub, kind, d)
+            if r:
+                res[d] = r
+        if len(res) == 2:
+            sub.guard("R07.2", kind, c07.derivative, sub, kind, res["forward"][1], res["backward"][1])
+    bad = [o for o in sub.obligations if o["status"] != "ok"]
+    for o in bad:
+        ctx.bad("R01.11", "activation:" + o["instance"], o["key"].split("/", 3)[-1], o["where"], o["detail"])
+    ctx.check("R01.11", "activation-derivatives", not bad and len(sub.obligations) >= 20, "activation-derivative-broken", "src/activation.rs",
+              "%d facts: every rank arm of the four differentiable activations computes its definition; backward is the derivative of forward" % len(sub.obligations))
+
+
 def run(ctx):
+    ctx.guard("R01.3", "kernel-helpers", r3_kernel_helpers, ctx)
+    ctx.guard("R01.11", "activation-derivatives", r11_activation_derivatives, ctx)
     ctx.guard("R01.9", "scale-factors", r9, ctx)
     ctx.guard("R01.10", "reshaping-helpers", r10, ctx)
     ctx.guard("R01.1", "deconvolution", r1, ctx)
@@ -438,7 +554,7 @@ def run(ctx):
     ctx.guard("R01.4", "call-sites", r4, ctx)
     ctx.guard("R01.5", "dense", r5, ctx)
     ctx.guard("R01.6", "maxpool", r6, ctx)
-    ctx.guard("R01.7", "axis-typing", spatial.axis_typing, ctx, "R01.7", BWD_FNS, 80)
+    ctx.guard("R01.7", "axis-typing", spatial.axis_typing, ctx, "R01.7", BWD_FNS, 41)  # measured 82; the count varies with temporaries, the floor only excludes vacuity
     ctx.guard("R01.8", "prologue", r8, ctx)
     ctx.floor("R01.1", 2, "two accumulations")
     ctx.floor("R01.2", 3, "")
